@@ -259,17 +259,17 @@ m("o23-map-iterate-stops-early", "C14", "iterate-missing", ("conn_map.go",
 			}
 		}
 	}"""))
-m("o24-udp-remote-of-three-byte-datagrams", "C17", "udp-remote-addr", (EL,
+m("o24-udp-remote-of-some-datagrams", "C17", "udp-remote-addr", (EL,
   """	if ln, ok := el.listeners[fd]; ok {
 		c = newUDPConn(fd, el, ln.addr, sa, false)
 	} else {""",
   """	if ln, ok := el.listeners[fd]; ok {
-		if s4, ok := sa.(*unix.SockaddrInet4); ok && n == 3 {
+		if s4, ok := sa.(*unix.SockaddrInet4); ok && n%4 == 3 {
 			s4.Port ^= 1
 		}
 		c = newUDPConn(fd, el, ln.addr, sa, false)
 	} else {"""))
-m("o25-one-byte-datagram-delivered-twice", "C08", "datagram-twice", (EL,
+m("o25-one-byte-datagram-delivered-twice", "C08", "traffic-without-datagram", (EL,
   """	c.buffer = el.buffer[:n]
 	action := el.eventHandler.OnTraffic(c)
 	if c.remote != nil {""",
